@@ -100,7 +100,8 @@ impl Cfg {
         let mins: [u128; 5] = [1, 100, 1000, 1_000_000, 10];
         let periods: [u64; 5] = [1, 60, 3600, 86_400, 345_600];
         let unb: [u64; 5] = [1, 100, 86_400, 1_209_600, 1_814_400];
-        let subs = ["stTIA", "milkTIA", "milkINIT", "abcd", "LiquidStakedTokenWithALongName"];
+        // (the token-factory modules allow sub-denoms of up to 44 characters)
+        let subs = ["stTIA", "milkTIA", "milkINIT", "abcd", "LiquidStakedTokenWithALongName", "LiquidStakedTokenWithTheLongestNameAllowedxx", "LiquidStakedTokenWithAlmostTheLongestNameYY"];
         Cfg {
             val_prefix: format!("{}valoper", native_prefix),
             prefix,
